@@ -138,32 +138,32 @@ Proof. intros H. rewrite bytes_cmp_antisym, H. reflexivity. Qed.
 Lemma bytes_eqb_false_of_cmp a b : bytes_cmp a b <> Eq -> bytes_eqb a b = false.
 Proof. intros H. rewrite bytes_eqb_cmp. destruct (bytes_cmp a b); congruence. Qed.
 
-Fixpoint keys_above (k : bytes) (m : list (bytes * value)) : Prop :=
+Fixpoint keys_above {A} (k : bytes) (m : list (bytes * A)) : Prop :=
   match m with [] => True | (k', _) :: r => bytes_cmp k k' = Lt /\ keys_above k r end.
 
-Fixpoint smap (m : list (bytes * value)) : Prop :=      (* strictly sorted by key *)
+Fixpoint smap {A} (m : list (bytes * A)) : Prop :=      (* strictly sorted by key *)
   match m with [] => True | (k, _) :: r => keys_above k r /\ smap r end.
 
-Lemma keys_above_trans k k' m : bytes_cmp k k' = Lt -> keys_above k' m -> keys_above k m.
+Lemma keys_above_trans {A} k k' (m : list (bytes * A)) : bytes_cmp k k' = Lt -> keys_above k' m -> keys_above k m.
 Proof.
   induction m as [|[k2 v2] m IH]; cbn; [auto|]. intros H [H1 H2]. split; [|auto].
   eapply bytes_cmp_lt_trans; eauto.
 Qed.
 
-Lemma map_get_above k m : keys_above k m -> map_get m k = None.
+Lemma map_get_above {A} k (m : list (bytes * A)) : keys_above k m -> map_get m k = None.
 Proof.
   induction m as [|[k2 v2] m IH]; cbn; [auto|]. intros [H1 H2].
   rewrite bytes_eqb_false_of_cmp by congruence. auto.
 Qed.
 
-Lemma map_insert_above k0 k v m : bytes_cmp k0 k = Lt -> keys_above k0 m -> keys_above k0 (map_insert m k v).
+Lemma map_insert_above {A} k0 k (v : A) m : bytes_cmp k0 k = Lt -> keys_above k0 m -> keys_above k0 (map_insert m k v).
 Proof.
   induction m as [|[k2 v2] m IH]; cbn; intros H Ha.
   - auto.
   - destruct Ha as [H1 H2]. destruct (bytes_cmp k k2) eqn:C; cbn; auto.
 Qed.
 
-Lemma map_insert_sorted k v m : smap m -> smap (map_insert m k v).
+Lemma map_insert_sorted {A} k (v : A) m : smap m -> smap (map_insert m k v).
 Proof.
   induction m as [|[k2 v2] m IH]; cbn; intros Hs; [auto|].
   destruct Hs as [Ha Hs]. destruct (bytes_cmp k k2) eqn:C; cbn.
@@ -173,7 +173,7 @@ Proof.
 Qed.
 
 (** Lookup after insertion: the inserted key maps to the new value, every other key is unchanged. *)
-Lemma map_get_insert k v m k' : smap m ->
+Lemma map_get_insert {A} k (v : A) m k' : smap m ->
   map_get (map_insert m k v) k' = if bytes_eqb k' k then Some v else map_get m k'.
 Proof.
   induction m as [|[k2 v2] m IH]; cbn; intros Hs.
